@@ -255,6 +255,11 @@ class _RecordingMixin:
         super().link_searcher(searcher)
         SINK.emit("db.link", self, searcher)
 
+    def has_specification(self):
+        res = super().has_specification()
+        SINK.emit("db.has", self, res)
+        return res
+
     def add(self, start, ends, rule):
         SINK.emit("db.add.pre", self, start, ends, rule)
         super().add(start, ends, rule)
